@@ -126,7 +126,7 @@ func runC19(c *Ctx, r *Report) {
 				}
 				underConst := false
 				for _, cc := range controlling(ifi.Block()) {
-					if call, isCall := cc.If.Cond.(*ssa.Call); isCall && isCallTo(call, constantFn) && cc.Edge == 0 && call.Common().Args[0] == ssa.Value(fn.Params[1]) {
+					if call, isCall := cc.Cond.(*ssa.Call); isCall && isCallTo(call, constantFn) && cc.Edge == 0 && call.Common().Args[0] == ssa.Value(fn.Params[1]) {
 						underConst = true
 					}
 				}
@@ -184,7 +184,7 @@ func runC19(c *Ctx, r *Report) {
 			nameArg := call.Common().Args[1]
 			ok := false
 			for _, cc := range controlling(call.Block()) {
-				if k, isCall := cc.If.Cond.(*ssa.Call); isCall && isCallTo(k, constantFn) && cc.Edge == 1 && sameExpr(k.Common().Args[0], nameArg) {
+				if k, isCall := cc.Cond.(*ssa.Call); isCall && isCallTo(k, constantFn) && cc.Edge == 1 && sameExpr(k.Common().Args[0], nameArg) {
 					ok = true
 				}
 			}
